@@ -66,9 +66,13 @@ def run_tree(args):
     spec, tier = args
     part = core.new_part()
     scratch = top = core.new_scratch()
-    if len(repr(spec)) % 2:
+    if len(repr(spec)) % 3 == 1:
         # the data set lives under a directory whose own name looks like a time-stamped subdirectory
         top = os.path.join(scratch, "2014-03-09T12-00-00")
+        os.makedirs(top)
+    elif len(repr(spec)) % 3 == 2:
+        # ... or whose name contains characters that are special in glob patterns and regular expressions
+        top = os.path.join(scratch, "campaign[2014] (a+b)", "run[3]*")
         os.makedirs(top)
     case = {"spec": spec}
 
